@@ -264,5 +264,9 @@ theorem stepThread_is_op (c : Cfg) (s : St) (t : Th) (s' : St) (t' : Th) (ev : L
         exact Or.inr ⟨.markActive k tr, by simp only [Registry.step]; exact h.1.symm⟩
       | false => simp only [stepThread, Option.some.injEq, Prod.mk.injEq] at h; exact Or.inl h.1.symm
     | done => simp [stepThread] at h
+  | reload d =>
+    cases d with
+    | false => simp only [stepThread, Option.some.injEq, Prod.mk.injEq] at h; exact Or.inl h.1.symm
+    | true => simp [stepThread] at h
 
 end CJ.RegistryConc
